@@ -8,12 +8,25 @@ import (
 	"github.com/theory/sqljson/path/ast"
 )
 
+// applyIntCallback passes integer to intCallback and returns the result,
+// unless integer is math.MinInt64 and the result would not fit in an int64
+// (its negation or absolute value), in which case it passes it to
+// floatCallback, instead.
+func applyIntCallback(integer int64, intCallback intCallback, floatCallback floatCallback) any {
+	if integer == math.MinInt64 {
+		if float := floatCallback(float64(integer)); float != float64(integer) {
+			return float
+		}
+	}
+	return intCallback(integer)
+}
+
 // castJSONNumber casts num to a an int64 (preferably) or to a float64,
 // passing the result through intCallback or floatCallback, respectively.
 // Returns false if num cannot be parsed into an int64 or float64.
 func castJSONNumber(num json.Number, intCallback intCallback, floatCallback floatCallback) (any, bool) {
 	if integer, err := num.Int64(); err == nil {
-		return intCallback(integer), true
+		return applyIntCallback(integer, intCallback, floatCallback), true
 	} else if float, err := num.Float64(); err == nil {
 		return floatCallback(float), true
 	}
